@@ -172,6 +172,18 @@ def _entropy_ctor(name):
     return ctor
 
 
+class SimRandomState(_RealRandomState):
+    """np.random.RandomState() without a seed reads the simulator's entropy inside a simulation (pickles / deep-copies
+    as a plain RandomState with the same state)."""
+
+    def __init__(self, seed=None):
+        sim = kernel.ACTIVE
+        if seed is None and sim is not None and not sim.aborting:
+            seed = sim.entropy()
+            sim.count("other_generators_seeded_from_entropy")
+        super().__init__(seed)
+
+
 class SimRandom(_pyrandom.Random):
     """random.Random() without a seed reads the simulator's entropy inside a simulation."""
 
@@ -217,10 +229,14 @@ def _clock(name, scale, integer):
 def _install_other():
     import os
     import time
-    for n in ("default_rng", "SeedSequence", "PCG64", "PCG64DXSM", "MT19937", "Philox", "SFC64", "RandomState"):
-        if hasattr(np.random, n):
-            _ORIG_OTHER[n] = getattr(np.random, n)
-            setattr(np.random, n, _entropy_ctor(n))
+    # default_rng is a function: wrapped by a function.  The generator *classes* stay classes (NumPy itself does
+    # isinstance checks against np.random.<Class>): RandomState is replaced by a subclass; the bit generators and
+    # SeedSequence constructed directly without a seed are not intercepted (a run that does so shows up as a
+    # non-reproducible digest, i.e. a HARNESS-ERROR, never as a verdict)
+    _ORIG_OTHER["default_rng"] = np.random.default_rng
+    np.random.default_rng = _entropy_ctor("default_rng")
+    _ORIG_OTHER["RandomState"] = np.random.RandomState
+    np.random.RandomState = SimRandomState
     _ORIG_OTHER["Random"] = _pyrandom.Random
     _pyrandom.Random = SimRandom
     _ORIG_OTHER["urandom"] = os.urandom
